@@ -82,6 +82,20 @@ Definition u_sgt z x :=
   else if (zs <? 0) && (0 <=? xs) then false
   else x <? z.
 Definition u_not x := wrap (Z.lnot x).
+(* the four 64-bit limbs z[0] (least significant) .. z[3] *)
+Definition limb (x i : Z) : Z := Z.land (Z.shiftr x (64 * i)) 18446744073709551615.
+(* bits.Sub64(a, b, borrowIn): borrowOut = 1 iff a < b + borrowIn *)
+Definition borrow64 (a b : Z) (bin : bool) : bool := a <? b + b2w bin.
+(* Lt: the borrow out of the limb-wise subtraction chain z - x *)
+Definition u_lt (z x : Z) : bool :=
+  let c0 := borrow64 (limb z 0) (limb x 0) false in
+  let c1 := borrow64 (limb z 1) (limb x 1) c0 in
+  let c2 := borrow64 (limb z 2) (limb x 2) c1 in
+  borrow64 (limb z 3) (limb x 3) c2.
+(* Eq: all four limbs equal; IsZero: the OR of the limbs is 0 *)
+Definition u_eq (z x : Z) : bool :=
+  (limb z 0 =? limb x 0) && (limb z 1 =? limb x 1) && (limb z 2 =? limb x 2) && (limb z 3 =? limb x 3).
+Definition u_iszero (z : Z) : bool := Z.lor (Z.lor (Z.lor (limb z 0) (limb z 1)) (limb z 2)) (limb z 3) =? 0.
 Definition u_lsh x n := if 256 <=? n then 0 else wrap (Z.shiftl x n).
 Definition u_rsh x n := if 256 <=? n then 0 else Z.shiftr x n.
 (* SRsh: MSB clear -> Rsh ; otherwise shift and fill the vacated top n bits with ones (all ones from 256 on) *)
@@ -111,7 +125,22 @@ Definition u_byte val n :=
     let offset := (n mod 8) * 8 in
     Z.shiftr (Z.land number (Z.shiftr 18374686479671623680 offset)) (56 - offset)
   else 0.
-Definition u_addmod x y m := (x + y) mod m.
+(* AddMod.  Fast path (m[3] != 0, x[3] <= m[3], y[3] <= m[3]): subtract m once from x and from y if that does not borrow,
+   add with carry c1, subtract m with borrow c2, keep the sum iff c1 = 0 and c2 = 1.  General path: AddOverflow; on overflow
+   the 257-bit number 2^256 + (x + y mod 2^256) is reduced by udivrem, else Mod.  (opAddmod tests m = 0 before.) *)
+Definition u_addmod x y m :=
+  let hi v := v / 6277101735386680763835789423207666416102355444464034512896 in          (* v[3] = v / 2^192 *)
+  if negb (hi m =? 0) && (hi x <=? hi m) && (hi y <=? hi m) then
+    let x' := if m <=? x then x - m else x in
+    let y' := if m <=? y then y - m else y in
+    let res := wrap (x' + y') in
+    let c1 := W <=? x' + y' in
+    let tmp := wrap (res - m) in
+    let c2 := res <? m in
+    if negb c1 && c2 then res else tmp
+  else if m =? 0 then 0
+  else let s := wrap (x + y) in
+       if W <=? x + y then (s + W) mod m else u_mod s m.
 Definition u_mulmod x y m := if (x =? 0) || (y =? 0) || (m =? 0) then 0 else (x * y) mod m.
 
 (* ------------------------------------------------------------------ the instructions (vm/instructions.go) *)
@@ -126,12 +155,12 @@ Definition i_addmod x y z := if z =? 0 then 0 else u_addmod x y z.          (* o
 Definition i_mulmod := u_mulmod.
 Definition i_exp := u_exp.
 Definition i_signextend back num := u_extendsign num back.
-Definition i_lt x y := b2w (x <? y).
-Definition i_gt x y := b2w (y <? x).
+Definition i_lt x y := b2w (u_lt x y).
+Definition i_gt x y := b2w (u_lt y x).                                        (* Gt: x.Lt(z) *)
 Definition i_slt x y := b2w (u_slt x y).
 Definition i_sgt x y := b2w (u_sgt x y).
-Definition i_eq x y := b2w (x =? y).
-Definition i_iszero x := b2w (x =? 0).
+Definition i_eq x y := b2w (u_eq x y).
+Definition i_iszero x := b2w (u_iszero x).
 Definition i_and x y := Z.land x y.
 Definition i_or x y := Z.lor x y.
 Definition i_xor x y := Z.lxor x y.
